@@ -949,6 +949,45 @@ def fam_control(tier, seed, extra=()):
     c("place/missing_return_in_if", "f := (b: bool) -> int { if b { return 1 } }; f(true)", Err("MissingReturn"))
     c("block/value", "x := { 1; 2; 3 }; y := { }; (x, y)", (3, None))
     c("block/last_is_set", "x := { a := 5 }; x", 5)
+    # if-set / while-set / match against struct, union and array patterns that are WIDER than the value's type
+    nxt = ("i := mut 0; nxt := () -> struct{value: int, tag: string} | () { i += 1; if *i <= 3 { return struct{value := *i, tag := \"n\"} } return () }; s := mut 0; ")
+    c("whileset/struct_width", nxt + "while n: struct{value: int} = nxt() { s += n.value }; (*s, *i)", (6, 4))
+    c("whileset/struct_exact", nxt + "while n: struct{value: int, tag: string} = nxt() { s += n.value }; (*s, *i)", (6, 4))
+    c("whileset/struct_empty_pattern", nxt + "while n: struct{} = nxt() { s += 1 }; (*s, *i)", (3, 4))
+    c("whileset/struct_wider_field_type", nxt + "while n: struct{value: int | float} = nxt() { s += 1 }; (*s, *i)", (3, 4))
+    c("whileset/struct_any_field", nxt + "while n: struct{tag: any} = nxt() { s += 1 }; (*s, *i)", (3, 4))
+    c("ifset/struct_width", nxt + "if n: struct{value: int} = nxt() { s += n.value }; (*s, *i)", (1, 1))
+    c("match/struct_width", nxt + "r := match nxt() { n: struct{value: int} => n.value, => 0 - 1, }; (r, *i)", (1, 1))
+    c("whileset/struct_other_field", nxt + "while n: struct{other: int} = nxt() { s += 1 }; (*s, *i)", (0, 1))
+    c("whileset/in_function", "f := () -> (int, int) { " + nxt + "while n: struct{value: int} = nxt() { s += n.value }; return (*s, *i) }; f()", (6, 4))
+    c("whileset/array_wider", "vals := [[1], [2, 3], 4]; i := mut 0; n := mut 0; while a: [int | float] = vals[*i] { i += 1; n += 1 }; (*i, *n)", (2, 2))
+    c("whileset/tuple_wider", "vals := [(1, 2), (3, 4), 5]; i := mut 0; while t: (int | float, any) = vals[*i] { i += 1 }; *i", 2)
+    c("whileset/function_pattern", "g := (x: int) -> int { return x }; vals := [g, g, 3]; i := mut 0; while h: (int) -> int | float = vals[*i] { i += 1 }; *i", 2)
+    # acceptance: what the checker must reject for `return`, loop values and match coverage to mean what C12 says
+    for k, prog in enumerate([
+        "f := (b: bool) -> int { if b { return } return 1 }; f(false)",
+        "f := () -> int { return }; f()",
+        "f := (b: bool) -> int | float { if b { return 1.5 } return }; f(false)",
+        "f := () -> int { loop { break } }; f()",
+        "f := () -> int { i := mut 0; while true { i += 1; if *i > 2 { break } } }; f()",
+        "f := (xs: [int | string]) -> int { i := mut 0; loop { match xs[*i] { n: int => { i += 1 }, s: string => { break }, } } }; f([1, \"a\"])",
+        "nxt := () -> int | string { return 1 }; f := () -> int { loop { if x: int = nxt() { break } } }; f()",
+        "nxt := () -> int | string { return 1 }; f := () -> int { loop { if x: string = nxt() { 0 } else { break } } }; f()",
+        "f := () -> int { loop { y := { break } } }; f()",
+        "r := if true { loop { break } } else { 5 }; match r { n: int => n, }",
+        "i := mut 0; r := if true { loop { match *i { (0) => { break }, => { i += 1 }, } } } else { 5 }; match r { n: int => n, }",
+        "nxt := () -> int | string { return 1 }; r := if true { loop { if x: int = nxt() { break } } } else { 5 }; match r { n: int => n, }",
+        "x := { loop { break } }; match x { n: int => n, }",
+        "f := () -> int { return 1.5 }; f()",
+        "f := () -> int { return () }; f()",
+        "break", "continue", "f := () -> int { break; return 1 }; f()",
+        "i := mut 0; loop { g := () -> int { break; return 1 }; i += 1; if *i > 2 { break } }",
+    ]):
+        c(f"reject/{k}", prog, Rejected())
+    c("accept/bare_return_in_void_fn", "n := mut 0; f := (b: bool) { if b { return } n += 1 }; f(true); f(false); *n", 1)
+    c("accept/return_void_value", "f := (b: bool) -> () | int { if b { return } return 1 }; (f(true), f(false))", (None, 1))
+    c("accept/loop_value_is_void", "x := loop { break }; y := { i := mut 0; while *i < 2 { i += 1 } }; (x, y)", (None, None))
+    c("accept/loop_then_return", "f := () -> int { i := mut 0; loop { i += 1; if *i > 2 { break } } return *i }; f()", 3)
     return out
 
 
